@@ -145,6 +145,7 @@ class LiveDispatcher(CallbackBase):
             desc = ChainMap(
                 {
                     "uid": new_uid(),
+                    "name": stream_name,
                     "time": ttime.time(),
                     "run_start": self._stream_start_uid,
                     "data_keys": data_keys,
